@@ -8,6 +8,9 @@ from analysis.program import Program, load
 tbl = Program.PARAM_TABLE
 if os.path.exists(tbl):
     os.unlink(tbl)            # extract with the names as written
+from analysis.inline import KNOWN as _K
+if os.path.exists(_K):
+    os.unlink(_K)
 P = load(sys.argv[1] if len(sys.argv) > 1 else "/repo", use_cache=False)[0]
 out, clash = {}, set()
 for f in P.fns.values():
@@ -22,3 +25,16 @@ for k in clash:
     del out[k]
 json.dump(out, open(tbl, "w"), indent=0, sort_keys=True)
 print("wrote %s: %d functions (%d ambiguous keys dropped)" % (tbl, len(out), len(clash)))
+# the names of all project functions on the reference tree: a function that is not in this list is NEW (analysis/inline.py)
+from analysis.inline import KNOWN
+from analysis.program import plain
+names = sorted({plain(f.d["qname"]) for f in P.fns.values() if f.file.startswith("oomd/") and not f.d.get("parentfn") and f.kind != "lambda"})
+from analysis.inline import closure_holder
+closures = set()
+for l in P.fns.values():
+    if l.kind == "lambda" and l.file.startswith("oomd/"):
+        par, holder = closure_holder(P, l)
+        if par is not None and holder:
+            closures.add("%s|%s" % (par.pq, holder))
+json.dump({"functions": names, "closures": sorted(closures)}, open(KNOWN, "w"), indent=0)
+print("wrote %s: %d function names, %d named closures" % (KNOWN, len(names), len(closures)))
